@@ -51,7 +51,7 @@ def build_native(inst, wd, sanitize, from_ir=None):
             cmd.append(os.path.join(engine.ROOT, x))
     else:
         src = os.path.join(engine.ROOT, 'harness', inst['pid'], inst['src'])
-        flags = ['-std=c++14', '-O1', '-g', '-DNDEBUG', '-fno-access-control', '-Wno-everything']
+        flags = ['-std=c++14', '-O1', '-g', '-DNDEBUG', '-fno-access-control', '-Wno-everything'] + list(inst.get('cflags', []))
         if sanitize:
             flags += ['-fsanitize=address,undefined', '-fno-sanitize-recover=undefined', '-fno-omit-frame-pointer']
         if not inst.get('exceptions'):
